@@ -135,7 +135,7 @@ def rule_print(ctx, py):
         isinstance(c, ast.Call) and isinstance(c.func, ast.Attribute) and c.func.attr == "append" for c in ast.walk(n))]
     ctx.need(len(loops) == 1 and isinstance(loops[0].target, ast.Name), R, "Units.__str__: the factor loop is not found")
     k = loops[0].target.id
-    it = pyfe.src(loops[0].iter).replace('"', "'")
+    it = pysym.isrc(loops[0].iter, f).replace('"', "'")      # locals such as `usys = self.sys` written out
     ctx.check(it in ("self.sys.keys()", "self.dim.keys()", "self.sys", "self.dim", "['space', 'time', 'quantity']",
                      "('space', 'time', 'quantity')", "list(self.sys)", "list(self.sys.keys())"), R, loops[0], f._qual,
               "for %s in %s" % (k, it), "one pass per base kind", "the printer does not visit the three base kinds")
